@@ -207,6 +207,7 @@ def run_in(ctx, tmpdir):
     rng = ctx.rng
     m = S.Mappers(pool)
     counter = itertools.count()
+    tgt_rot = itertools.count()
     # ---- writing side
     n_trees = 600 if ctx.thorough else 120
     combos = [(k, v) for k in S.KEY_MAPS for v in S.VALUE_MAPS]
@@ -228,7 +229,11 @@ def run_in(ctx, tmpdir):
             key_map, value_map = S.KEY_MAPS[km_name], S.VALUE_MAPS[vm_name]
             if isinstance(value_map, dict):
                 value_map = dict(value_map)
-            meta = {"foo": "bar", "n": next(counter)}
+            # ONE caller-owned metadata dict for all saves (see props/c05.py): nothing of an earlier call may stick to it
+            from props.c05 import SHARED_META
+
+            SHARED_META.update({"foo": "bar", "n": next(counter)})
+            meta = dict(SHARED_META)
             ekm, evm = S.effective_maps(tree, key_map, value_map if not isinstance(value_map, dict) else dict(value_map))
             fp = io.StringIO()
             kw = {}
@@ -237,24 +242,27 @@ def run_in(ctx, tmpdir):
             case = dict(side="write", cfg=cfg, spec=spec, key_map=km_name, value_map=vm_name)
             doc = None
             # target kind rotates: open stream, str path, pathlib.Path, compressed path (the layout is the same for all)
-            target = ["stream", "path", "pathlib", "zip"][next(counter) % 4]
+            target = ["stream", "path", "zip", "pathlib", "path"][next(tgt_rot) % 5]    # 5 targets against 3 / 9 option combinations: all pairs occur
             case["target"] = target
             out.dist["target:" + target] += 1
             try:
                 if target == "stream":
-                    tree.save(fp, meta=dict(meta), key_map=key_map, value_map=value_map, **kw)
+                    tree.save(fp, meta=SHARED_META, key_map=key_map, value_map=value_map, **kw)
                     doc = json.loads(fp.getvalue())
                 else:
                     from props.c05 import read_doc
 
                     fpath = os.path.join(tmpdir, f"w{next(counter)}.nutree")
-                    tree.save(pathlib.Path(fpath) if target == "pathlib" else fpath, meta=dict(meta), key_map=key_map, value_map=value_map,
+                    tree.save(pathlib.Path(fpath) if target == "pathlib" else fpath, meta=SHARED_META, key_map=key_map, value_map=value_map,
                               **({"compression": True} if target == "zip" else {}), **kw)
                     doc = read_doc(fpath, True)
                     os.unlink(fpath)
             except Exception as e:  # noqa
                 out.fail(case, f"save raised {e!r}")
                 continue
+            if SHARED_META != meta:
+                out.fail(case, f"save() changed the caller's metadata dict: {SHARED_META} (was {meta})")
+                SHARED_META.clear()
             mf = {}
             for n in tree:
                 if not isinstance(n.data, str) and kw:
